@@ -615,3 +615,21 @@ func (e *Engine) namedDynContract(cc *ssa.CallCommon) *Contract {
 	}
 	return nil
 }
+
+// findGlobal resolves "pkgname.Var" to the SSA global.
+func (e *Engine) findGlobal(name string) *ssa.Global {
+	i := strings.LastIndex(name, ".")
+	if i < 0 {
+		return nil
+	}
+	pkg, v := name[:i], name[i+1:]
+	for _, p := range e.prog.AllPackages() {
+		if p.Pkg.Name() != pkg && p.Pkg.Path() != pkg {
+			continue
+		}
+		if gl, ok := p.Members[v].(*ssa.Global); ok {
+			return gl
+		}
+	}
+	return nil
+}
